@@ -437,7 +437,7 @@ impl Gen {
             k0len: a[4].as_u64()? as usize,
         };
         let total = (g.n as u128) * (g.klen as u128 + 24) + g.k0len as u128;
-        if !(0..=2).contains(&g.mode) || g.seed > M63 || total > (1 << 25) {
+        if !(0..=2).contains(&g.mode) || g.seed > M63 || total > (1 << 26) {
             return None;
         }
         Some(g)
@@ -626,6 +626,17 @@ fn name_of(v: &Value) -> String {
 }
 
 fn run(kind: &str, input: &Value) -> Value {
+    if std::env::var_os("C10_TIMING").is_none() {
+        return run_inner(kind, input);
+    }
+    let t0 = std::time::Instant::now();
+    let out = run_inner(kind, input);
+    let big = kind == "big" && input[0][1].as_u64().unwrap_or(0) * (input[0][2].as_u64().unwrap_or(0) + 20) > 100_000;
+    eprintln!("T {}{} {}", kind, if big { "-large" } else { "" }, t0.elapsed().as_micros());
+    out
+}
+
+fn run_inner(kind: &str, input: &Value) -> Value {
     match kind {
         "rt" => {
             let (w, r) = (input[0].as_i64().unwrap(), input[1].as_i64().unwrap());
@@ -998,6 +1009,71 @@ fn emit_lit(em: &mut Emitter, r: i64, name: &str, content: &[u8], hdr: bool, tag
     );
 }
 
+
+// ---------- size sweep (kinds "big" / "rewrite") ----------
+/// a payload whose text (CSV if `csv`, else JSONL) is exactly `target` bytes long where that is
+/// possible (n >= 1, every key at least one character), else the smallest one-record payload.
+/// shape 0: many records with 48-character keys; 1: 1500-character keys; 2: one to three records;
+/// 3: one-character keys (record counts beyond 65536 at 2 MiB)
+fn solve_gen(mode: i64, seed: u64, target: usize, csv: bool, shape: usize, few: usize) -> Gen {
+    let over = if csv { 2 } else { 14 };
+    if target == 0 {
+        return Gen { mode, n: 0, klen: 1, seed, k0len: 1 };
+    }
+    let (mut n, klen) = match shape {
+        0 => ((target / (over + 48 + 3)).max(1), 48),
+        1 => ((target / (over + 1500 + 2)).max(1), 1500),
+        3 => ((target / (over + 1 + 4)).max(1), 1),
+        _ => {
+            let n = few.clamp(1, 3);
+            (n, (target / n).saturating_sub(over + 1).max(1))
+        }
+    };
+    loop {
+        let g = Gen { mode, n, klen, seed, k0len: 1 };
+        if n == 1 || g.text_len(csv) <= target {
+            break;
+        }
+        n -= (n / 64).max(1).min(n - 1);
+    }
+    let base = Gen { mode, n, klen, seed, k0len: 1 }.text_len(csv);
+    let k0len = if base <= target { 1 + (target - base) } else { 1 };
+    Gen { mode, n, klen, seed, k0len }
+}
+
+/// name variants: 0 = neutral name; 1..=4 = codec c's extension (written and read under it);
+/// 5..=8 = written under codec c's extension, the stored bytes copied to a neutral name (signature
+/// detection); 9..=12 = written under codec c's extension, copied to ANOTHER codec's name
+fn variant_names(f: Fmt, variant: usize, spell: usize) -> (String, String) {
+    let (stem, neutral) = match f {
+        Fmt::Jsonl => ("s.jsonl", ["s.jsonl", "s", "s.dat"][spell % 3]),
+        Fmt::Csv => ("s.csv", ["s.csv", "s", "s.dat"][spell % 3]),
+        Fmt::Cloud => ("d/part-0.jsonl", ["d/part-0.jsonl", "d/blob-0001", "s"][spell % 3]),
+        Fmt::Parquet => ("s.parquet", ["s.parquet", "s", "s.dat"][spell % 3]),
+    };
+    let ext = |c: usize, k: usize| -> String {
+        let e = EXTS[c][k % EXTS[c].len()];
+        if (k / 2) % 3 == 2 { e.to_ascii_uppercase() } else { e.to_string() }
+    };
+    match variant {
+        0 => (neutral.to_string(), neutral.to_string()),
+        1..=4 => {
+            let n = format!("{stem}{}", ext(variant - 1, spell));
+            (n.clone(), n)
+        }
+        5..=8 => (format!("{stem}{}", ext(variant - 5, spell)), neutral.to_string()),
+        _ => {
+            let c = (variant - 9) % 4;
+            (format!("{stem}{}", ext(c, spell)), format!("{stem}{}", ext((c + 1 + spell % 3) % 4, spell / 2)))
+        }
+    }
+}
+const SHARD_OPTS: [Option<usize>; 5] = [Some(2), Some(1), Some(4), None, Some(7)];
+
+fn emit_big(em: &mut Emitter, g: &Gen, entries: Vec<Value>, tags: &[&str]) {
+    em.case("big", json!([g.json(), entries]), g.n > 0, tags);
+}
+
 fn generate(seed: u64, tier: Tier, em: &mut Emitter) {
     let thorough = tier == Tier::Thorough;
     let all_pairs = pairs();
@@ -1234,6 +1310,160 @@ fn generate(seed: u64, tier: Tier, em: &mut Emitter) {
         for (steps, tag) in scripts {
             let nt = steps.iter().any(|s| s[0] == "reg");
             em.case("proc", json!([steps]), nt, &["proc", tag]);
+        }
+    }
+
+
+    // 3c. the SIZE dimension: payloads described by generator parameters, text sizes 0 B .. 4 MiB
+    //     across every power of two (2^k - 1, 2^k, 2^k + 1), three shapes (many short records,
+    //     1500-byte records, one to three huge records: a single line longer than any buffer),
+    //     three compressibility classes, every entry point, every codec by extension and by
+    //     signature under a neutral name.
+    let np_pairs: Vec<(i64, i64)> =
+        all_pairs.iter().copied().filter(|&(w, _)| wfmt(w) != Fmt::Parquet).collect();
+    let sweep_seed = seed.wrapping_mul(0x9E37_79B9).wrapping_add(0xC10) & 0xFFFF_FFFF;
+    let mut e_no: usize = (seed as usize).wrapping_mul(7) % 504;
+    let mut b_no: usize = 0;
+    let small_entries = if thorough { 56 } else { 16 };
+    let mut small_targets: Vec<usize> = vec![0];
+    for k in 0..=16u32 {
+        for d in [-1i64, 0, 1] {
+            let t = (1i64 << k) + d;
+            if t > 0 && !small_targets.contains(&(t as usize)) {
+                small_targets.push(t as usize);
+            }
+        }
+    }
+    for (ti, &target) in small_targets.iter().enumerate() {
+        for shape in 0..3usize {
+            if shape == 1 && target < 4096 {
+                continue;
+            }
+            for mode in 0..3i64 {
+                // quick tier: compressible and incompressible for the many-records shape, one of
+                // the two (alternating) for the other shapes, four-distinct-keys now and then
+                let keep = thorough
+                    || match mode {
+                        1 => (ti + shape) % 5 == 0,
+                        m => shape == 0 || (ti + shape + m as usize / 2 + seed as usize) % 2 == 0,
+                    };
+                if !keep {
+                    continue;
+                }
+                let csv = b_no % 2 == 1;
+                let g = solve_gen(mode, sweep_seed + b_no as u64, target, csv, shape, 1 + b_no % 3);
+                let mut entries = Vec::new();
+                for _ in 0..small_entries {
+                    let (w, r) = np_pairs[e_no % np_pairs.len()];
+                    // a mismatching name (variants 9..) once in a while
+                    let variant = if e_no % 41 == 40 { 9 + e_no % 4 } else { e_no % 9 };
+                    let (wn, rn) = variant_names(wfmt(w), variant, e_no / 9);
+                    entries.push(json!([w, r, wn, rn, SHARD_OPTS[(e_no / 3) % 5]]));
+                    e_no += 1;
+                }
+                if b_no % 8 == 0 {
+                    let (wn, rn) = variant_names(Fmt::Parquet, [0, 1, 3][b_no / 8 % 3], b_no);
+                    entries.push(json!([W_PARQUET_VEC, R_PARQUET_VEC, wn, rn, null]));
+                }
+                emit_big(em, &g, entries, &["size", "small"]);
+                b_no += 1;
+            }
+        }
+    }
+    // 128 KiB .. 4 MiB: every reader x three name variants per bucket (rotating so that every
+    // (reader, variant) meets every size class, shape and compressibility), two writers per format
+    let mut big_targets: Vec<usize> = vec![
+        (1 << 17) + 1, (1 << 18) - 1, 1 << 19, (1 << 20) - 1, 1 << 20, (1 << 20) + 1, 1_280_000,
+        (1 << 21) + 1, 3 * (1 << 20) + 17, (1 << 22) + 1,
+    ];
+    if thorough {
+        big_targets.extend([(1 << 23) + 1, (1 << 24) - 1]);
+    }
+    let jw = [W_JSONL_VEC, W_JSONL_PAR, W_PC_JSONL, W_PC_JSONL_PAR];
+    let cw = [W_CSV_VEC, W_CSV, W_CSV_PAR, W_PC_CSV, W_PC_CSV_PAR];
+    for (ti, &target) in big_targets.iter().enumerate() {
+        for shape in 0..4usize {
+            for mode in 0..3i64 {
+                let keep = if thorough {
+                    shape != 3 || (ti >= 5 && mode != 1)
+                } else if shape == 3 {
+                    // one-character keys: 50 000 records at 1 MiB, 100 000 at 2 MiB
+                    (ti == 5 && mode != 1) || (ti == 7 && mode == 0)
+                } else {
+                    match mode {
+                        0 => (ti + shape + seed as usize) % 3 != 0,
+                        2 => shape != 1 && [0usize, 5].contains(&ti),
+                        _ => shape == (ti % 2) && (ti == 6 || ti == 9),
+                    }
+                };
+                if !keep || (mode == 2 && target > (1 << 22) + 1) {
+                    continue;
+                }
+                let csv = (ti + shape) % 2 == 1;
+                let g = solve_gen(mode, sweep_seed + 1000 + b_no as u64, target, csv, shape, 1 + (ti + mode as usize) % 3);
+                let mut entries = Vec::new();
+                for r in READERS {
+                    if rfmt(r) == Fmt::Parquet {
+                        continue;
+                    }
+                    for t in 0..3usize {
+                        // below 1 MiB two of the three variants (thorough: all)
+                        if !thorough && ti < 3 && t == (b_no + r as usize) % 3 {
+                            continue;
+                        }
+                        // (2 * shape: not aliased with the quick tier's choice of (size, shape) pairs above)
+                        let variant = (ti + 2 * shape + mode as usize + r as usize + seed as usize) % 3 + 3 * t;
+                        // one writer per format and bucket (thorough: two)
+                        let q = if thorough { (r as usize + t) % 2 } else { 0 };
+                        let w = match rfmt(r) {
+                            Fmt::Jsonl => jw[(b_no + q) % 4],
+                            Fmt::Csv => cw[(b_no + q) % 5],
+                            _ => W_CLOUD_JSONL,
+                        };
+                        let (wn, rn) = variant_names(rfmt(r), variant, b_no + t);
+                        entries.push(json!([w, r, wn, rn, SHARD_OPTS[(b_no + t) % 5]]));
+                    }
+                }
+                if b_no % 4 == 0 {
+                    entries.push(json!([W_PARQUET_VEC, R_PARQUET_VEC, "s.parquet", "s.parquet", null]));
+                }
+                emit_big(em, &g, entries, &["size", "large"]);
+                b_no += 1;
+            }
+        }
+    }
+
+    // 3d. a second write to the SAME name (same directory / same object store): same length and
+    //     different content, shorter, longer, empty after non-empty and back
+    let rw_names = |f: Fmt, i: usize| -> String { variant_names(f, [0, 1, 2, 3, 4, 0][i % 6], i / 6).0 };
+    let mut rw_no = seed as usize % 7;
+    for (pi, &(w, r)) in all_pairs.iter().enumerate() {
+        let f = wfmt(w);
+        // quick tier: one reader per writer (rotating), every reader for the cloud writer
+        if !thorough && f != Fmt::Cloud && (pi + w as usize + seed as usize) % 6 != 0 {
+            continue;
+        }
+        let shapes: [(Gen, Gen); 7] = [
+            // same text length, different content
+            (Gen { mode: 2, n: 5, klen: 9, seed: 11, k0len: 9 }, Gen { mode: 2, n: 5, klen: 9, seed: 12, k0len: 9 }),
+            (Gen { mode: 0, n: 1, klen: 1, seed: 0, k0len: 40 }, Gen { mode: 1, n: 1, klen: 1, seed: 0, k0len: 40 }),
+            (Gen { mode: 2, n: 300, klen: 30, seed: 5, k0len: 30 }, Gen { mode: 2, n: 300, klen: 30, seed: 6, k0len: 30 }),
+            // longer then shorter (truncation), shorter then longer
+            (Gen { mode: 2, n: 400, klen: 30, seed: 7, k0len: 30 }, Gen { mode: 1, n: 3, klen: 4, seed: 0, k0len: 4 }),
+            (Gen { mode: 1, n: 3, klen: 4, seed: 0, k0len: 4 }, Gen { mode: 2, n: 400, klen: 30, seed: 8, k0len: 30 }),
+            // non-empty then empty (n = 0 branch of the parallel writers), empty then non-empty
+            (Gen { mode: 2, n: 50, klen: 20, seed: 9, k0len: 20 }, Gen { mode: 0, n: 0, klen: 1, seed: 0, k0len: 1 }),
+            (Gen { mode: 0, n: 0, klen: 1, seed: 0, k0len: 1 }, Gen { mode: 2, n: 50, klen: 20, seed: 10, k0len: 20 }),
+        ];
+        for (si, (ga, gb)) in shapes.iter().enumerate() {
+            let name = if f == Fmt::Parquet { "s.parquet".to_string() } else { rw_names(f, rw_no) };
+            rw_no += 1;
+            em.case(
+                "rewrite",
+                json!([w, r, name, ga.json(), gb.json(), SHARD_OPTS[(rw_no + si) % 5]]),
+                true,
+                &["rewrite", ["same-length", "same-length", "same-length", "shorter", "longer", "to-empty", "from-empty"][si]],
+            );
         }
     }
 
